@@ -260,6 +260,25 @@ class StmtMixin(object):
     # ------------------------------------------------------------------ control
     def x_If(self, node, env):
         c = ops.truth(self, self.eval(node.test, env))
+        # "if c: name = <pure expr>" / "if c: name op= <pure expr>" without else: merged into an if-then-else
+        # value instead of forking the path (side obligations of the right-hand side are required unconditionally)
+        if (not isinstance(c, bool) and not node.orelse and len(node.body) == 1
+                and isinstance(node.body[0], (ast.Assign, ast.AugAssign))):
+            st = node.body[0]
+            tgt = st.targets[0] if isinstance(st, ast.Assign) and len(st.targets) == 1 else (st.target if isinstance(st, ast.AugAssign) else None)
+            from .interp import is_simple_expr
+            if isinstance(tgt, ast.Name) and env.has(tgt.id) and is_simple_expr(st.value):
+                old = env.lookup(tgt.id)
+                if ops.is_num(old) or isinstance(old, bool) or (is_z3(old) and z3.is_bool(old)):
+                    e2 = Env(parent=env)
+                    try:
+                        self.exec_stmt(st, e2)
+                        new = e2.vars.get(tgt.id)
+                        merged = ops.ite(c, new, old)
+                        env.set(tgt.id, merged)
+                        return
+                    except OutOfSubset:
+                        pass
         if self.path.choose(c):
             self.exec_block(node.body, env)
         else:
@@ -514,23 +533,28 @@ class StmtMixin(object):
             senv.vars.update(extra)
         if not hasattr(self.frame, "qfacts"):
             self.frame.qfacts = []
-        self.frame.qfacts.append((lam, senv))
+        # template: the body evaluated once over placeholder constants; instances are z3 substitutions
+        names = [a.arg for a in lam.args.args]
+        ph = [z3.Int(fresh_name("ph_" + n_)) for n_ in names]
+        e2 = Env(parent=senv)
+        for n_, t_ in zip(names, ph):
+            e2.set(n_, t_)
+        self.spec_mode += 1
+        try:
+            templ = ops.truth(self, self.eval(lam.body, e2))
+        finally:
+            self.spec_mode -= 1
+        self.frame.qfacts.append((names, ph, templ))
 
     def instantiate_qfacts(self, terms_list):
         """Assume every remembered quantified fact at each of the given argument tuples."""
-        for lam, senv in getattr(self.frame, "qfacts", []):
-            names = [a.arg for a in lam.args.args]
+        for names, ph, templ in getattr(self.frame, "qfacts", []):
+            if isinstance(templ, bool):
+                continue
             for terms in terms_list:
                 if len(terms) != len(names):
                     continue
-                e2 = Env(parent=senv)
-                for n_, t_ in zip(names, terms):
-                    e2.set(n_, t_)
-                self.spec_mode += 1
-                try:
-                    inst = ops.truth(self, self.eval(lam.body, e2))
-                finally:
-                    self.spec_mode -= 1
+                inst = z3.substitute(templ, *[(p_, z3num(t_)) for p_, t_ in zip(ph, terms)])
                 self.path.assume(inst)
 
     def hint_terms(self, hints, env):
@@ -703,6 +727,9 @@ class StmtMixin(object):
             item, cond, k = self.externals.arbitrary_item(self, it, "it%d" % spec.ordinal)
             self.path.assume(cond)
             self.assign(node.target, item, env)
+            if not hasattr(self.frame, "last_loop_item"):
+                self.frame.last_loop_item = {}
+            self.frame.last_loop_item[spec.ordinal] = item
             self.path.event("loop_iter", spec.ordinal, k, it)
             self.frame.active_hints = list(spec.hints)
             self.frame.hints_done = set()
@@ -727,6 +754,9 @@ class StmtMixin(object):
                     break
         if fact is not None:
             self.assume_spec_fact(fact)
+        for name, expr in spec.exit_assume:
+            self.assume_spec(expr, env)
+            self.note_assumption("assumed at exhaustion of the iterator loop %d of %s: %s" % (spec.ordinal, self.frame.qualname, name))
         self.frame.active_hints = list(spec.hints)
         self.frame.hints_done = set()
         self.poison_assigned([ast.Assign(targets=[node.target], value=ast.Constant(0))], env, "loop variable after an iterator loop")
